@@ -164,8 +164,7 @@ PlacementsThorough == PlacementsQuick \cup
 KindSetsMid   == KindSetsQuick \cup {<<"azel", "azel", "radar", "radar">>}
 PlacementsMid == PlacementsQuick \cup
                  {<< <<12, 0>>, <<12, 0>>, <<0, 0>>, <<0, 0>> >>,
-                  << <<17, 0>>, <<0, -1>>, <<0, 1>>, <<12, 0>> >>,
-                  << <<1, 0>>, <<0, -1>>, <<11, 0>>, <<12, 1>> >>}
+                  << <<17, 0>>, <<0, -1>>, <<0, 1>>, <<12, 0>> >>}
 SubsQuick    == {<<1, -1, 0, 1>>}
 SubsMid      == SubsQuick \cup {<<-1, 1, -1, 0>>}
 SubsThorough == SubsQuick \cup {<<-1, 1, -1, 0>>, <<0, 0, 1, -1>>, <<-1, -1, 1, 1>>}
